@@ -21,7 +21,7 @@ import ast
 import os
 
 from gridlint import e4
-from gridlint.core import AnalysisError, Report, norm
+from gridlint.core import AnalysisError, Report, norm, strip_docstring
 from gridlint.props.c02 import AngularModel
 from gridlint.props.common import get_repo
 
@@ -295,6 +295,114 @@ def obligations_lookup(rep, repo, m):
     return len(branches)
 
 
+def _tri(test, env):
+    """Three-valued truth of a validation guard under `env` (name -> int | None); unknown names are
+    non-negative unknowns (table maxima)."""
+    U = "unknown"
+
+    def val(e):
+        if isinstance(e, ast.Constant):
+            return e.value
+        if isinstance(e, ast.Name):
+            return env.get(e.id, U)
+        if isinstance(e, ast.UnaryOp) and isinstance(e.op, ast.USub):
+            v = val(e.operand)
+            return -v if isinstance(v, (int, float)) and not isinstance(v, bool) else U
+        return U
+    if isinstance(test, ast.BoolOp):
+        ks = [_tri(v, env) for v in test.values]
+        if isinstance(test.op, ast.Or):
+            return True if True in ks else (None if None in ks else False)
+        return False if False in ks else (None if None in ks else True)
+    if isinstance(test, ast.UnaryOp) and isinstance(test.op, ast.Not):
+        k = _tri(test.operand, env)
+        return None if k is None else not k
+    if isinstance(test, ast.Call) and norm(test.func) == "isinstance" and len(test.args) == 2 and \
+            isinstance(test.args[0], ast.Name) and test.args[0].id in env:
+        v = env[test.args[0].id]
+        kinds = norm(test.args[1])
+        if v is None:
+            return False
+        return True if "int" in kinds or "Integral" in kinds or "integer" in kinds else None
+    if isinstance(test, ast.Name) and test.id in env:
+        return bool(env[test.id])
+    if isinstance(test, ast.Compare) and len(test.ops) == 1:
+        a, b, op = val(test.left), val(test.comparators[0]), test.ops[0]
+        if isinstance(op, (ast.Is, ast.IsNot)):
+            if U in (a, b):
+                return None
+            return (a is b) == isinstance(op, ast.Is)
+        if a is None or b is None:
+            return None
+        if U not in (a, b):
+            import operator
+            f_ = {ast.Lt: operator.lt, ast.LtE: operator.le, ast.Gt: operator.gt, ast.GtE: operator.ge,
+                  ast.Eq: operator.eq, ast.NotEq: operator.ne}.get(type(op))
+            return f_(a, b) if f_ else None
+        # one side is a non-negative unknown
+        if a == 0 and b == U and isinstance(op, ast.Gt):
+            return False      # 0 > max
+        if a == U and b == 0 and isinstance(op, ast.Lt):
+            return False      # max < 0
+        return None
+    return None
+
+
+def _raise_paths(body, conds=()):
+    """(raise node, [(test node, polarity)]) for every `raise` of a statement list, with the branch
+    conditions that lead to it; an earlier `if T: raise/return` adds (T, False) to what follows."""
+    conds = list(conds)
+    for s in body:
+        if isinstance(s, ast.Raise):
+            yield s, list(conds)
+            return
+        if isinstance(s, ast.Return):
+            return
+        if isinstance(s, ast.If):
+            yield from _raise_paths(s.body, conds + [(s.test, True)])
+            yield from _raise_paths(s.orelse, conds + [(s.test, False)])
+            ends = lambda b: bool(b) and isinstance(b[-1], (ast.Raise, ast.Return))  # noqa: E731
+            if ends(s.body) and not s.orelse:
+                conds.append((s.test, False))
+            elif s.orelse and ends(s.orelse) and not ends(s.body):
+                conds.append((s.test, True))
+            elif s.orelse and ends(s.orelse) and ends(s.body):
+                return
+        elif isinstance(s, (ast.With, ast.For, ast.While)):
+            yield from _raise_paths(s.body, conds)
+        elif isinstance(s, ast.Try):
+            yield from _raise_paths(s.body, conds)
+
+
+def obligations_zero(rep, repo, m):
+    """Requests of exactly zero are admissible ("from zero up to the largest supported one"): no
+    `raise` of the resolver may be reached with certainty by degree = 0 (size = None)
+    or size = 0 (degree = None).  Guards are evaluated three-valued; table maxima are non-negative
+    unknowns."""
+    # (the loader only ever receives resolved pairs: what it does with a zero is immaterial)
+    for f in (m.f_get,):
+        for x, other in (("degree", "size"), ("size", "degree")):
+            env = {x: 0, other: None}
+            hit = None
+            for node, conds in _raise_paths(strip_docstring(f.node.body)):
+                vals = []
+                for t_, pol in conds:
+                    k = _tri(t_, env)
+                    vals.append(None if k is None else (k if pol else not k))
+                if conds and all(v is True for v in vals):
+                    hit = (node, conds)
+                    break
+            if hit is None:
+                rep.ok("O3.zero-request-accepted", f"AngularGrid.{f.name}[{x}=0]", f.loc(),
+                       "no raise is certainly reached by a zero request")
+            else:
+                node, conds = hit
+                rep.violation("O3.zero-request-accepted", f"angular.AngularGrid.{f.name}", f"{x}=0",
+                              f"a request of {x} = 0 certainly reaches `{norm(node)[:70]}` (through "
+                              f"`{norm(conds[-1][0])[:70]}`): zero is an admissible request and must resolve to the "
+                              f"smallest supported grid", repo.rel("angular", node))
+
+
 def obligations_files(rep, repo, m):
     n = 0
     for key in m.methods():
@@ -328,7 +436,20 @@ def obligations_converter(rep, repo, m):
     it = norm(loop.iter)
     var = norm(loop.target)
     param = f.params[0]
-    if it not in (f"np.unique({param})", f"set({param})", f"sorted(set({param}))", param):
+    # the request sequence and its element-wise copies made before the loop
+    copies = {param}
+    for s in f.node.body:
+        if s is loop:
+            break
+        if isinstance(s, ast.Assign) and isinstance(s.targets[0], ast.Name) and isinstance(s.value, ast.Call) and \
+                norm(s.value.func) in ("np.array", "np.asarray", "np.copy", "list", "tuple") and s.value.args and \
+                norm(s.value.args[0]) in copies:
+            copies.add(s.targets[0].id)
+    it_forms = set()
+    for c_ in copies:
+        it_forms |= {f"np.unique({c_})", f"set({c_})", f"sorted(set({c_}))", c_, f"np.unique({c_})[::-1]",
+                     f"sorted(set({c_}), reverse=True)", f"reversed(np.unique({c_}))", f"reversed(sorted(set({c_})))"}
+    if it not in it_forms:
         raise AnalysisError(f"unrecognised idiom: {cons} iterates over `{it}`")
     call = store = None
     for s in ast.walk(ast.Module(body=loop.body, type_ignores=[])):
@@ -337,7 +458,7 @@ def obligations_converter(rep, repo, m):
             call = s
     for s in loop.body:  # the positional store into the result array is a top-level statement of the loop
         if isinstance(s, ast.Assign) and isinstance(s.targets[0], ast.Subscript) and \
-                any(isinstance(x, ast.Name) and x.id == param for x in ast.walk(s.targets[0].slice)):
+                any(isinstance(x, ast.Name) and x.id in copies for x in ast.walk(s.targets[0].slice)):
             store = s
     if call is None or store is None:
         raise AnalysisError(f"unrecognised idiom: {cons} loop body")
@@ -357,9 +478,17 @@ def obligations_converter(rep, repo, m):
                       f"_get_degree_and_size(degree=None, size=<that size>, method=method)[0]", repo.rel("angular", call))
     tgt = store.targets[0]
     sel = norm(tgt.slice)
-    good_sel = (f"np.where({param} == {var})", f"{param} == {var}", f"np.where({var} == {param})",
-                f"{var} == {param}", f"np.asarray({param}) == {var}", f"np.where(np.asarray({param}) == {var})")
-    if sel in good_sel and norm(store.value) == norm(call.targets[0]):
+    written = norm(tgt.value)
+    good_sel = set()
+    for c_ in copies - {written}:   # the mask must be taken on an array the loop does not rewrite
+        good_sel |= {f"np.where({c_} == {var})", f"{c_} == {var}", f"np.where({var} == {c_})",
+                     f"{var} == {c_}", f"np.asarray({c_}) == {var}", f"np.where(np.asarray({c_}) == {var})"}
+    if written in copies and any(isinstance(x, ast.Name) and x.id == written for x in ast.walk(tgt.slice)):
+        rep.violation("O5.converter-positions", cons, "store",
+                      f"`{norm(store)[:120]}`: the positions are selected on `{written}`, the array that the loop itself "
+                      f"rewrites: an entry already replaced by its degree d is converted a second time when d is also "
+                      f"one of the requested sizes", repo.rel("angular", store))
+    elif sel in good_sel and norm(store.value) == norm(call.targets[0]):
         rep.ok("O5.converter-positions", cons, repo.rel("angular", store), norm(store)[:100])
     else:
         rep.violation("O5.converter-positions", cons, "store",
@@ -490,6 +619,7 @@ def run(tier="quick", root="/repo", evidence_dir=None, quiet=False):
                       "resolver and loader accept different method keys", repo.rel("angular", m.f_get.node))
     obligations_tables(rep, repo, m)
     nb = obligations_lookup(rep, repo, m)
+    obligations_zero(rep, repo, m)
     nf = obligations_files(rep, repo, m)
     obligations_converter(rep, repo, m)
     obligations_constructors(rep, repo, m)
